@@ -81,6 +81,7 @@ func (p fileProducer) Apply(dest, mimetype string, result io.Reader) error {
 		return err
 	}
 	if _, err := io.Copy(f, result); err != nil {
+		f.Close()
 		return err
 	}
 	p.f.Close()
